@@ -19,6 +19,10 @@ inductive Cert
   | sreg | sdereg | sdeleg | pret | vdeleg
   /-- pool registration: `isNew` = `ls.PoolCurrentState(operator)` returns nil; pool id -/
   | preg (isNew : Bool) (id : Nat)
+  /-- registration certificate of a pool that is registered AND has a pending retirement
+      (`PoolCurrentState` returns a registration and a retirement epoch): the pool still
+      holds its deposit, so this is a re-registration — no deposit, in code and formula -/
+  | pregRetiring (id : Nat)
   /-- Conway certificates carrying an amount (CIP-0094); `recorded` = deposit the ledger
       state holds (stake credential: not exposed by the LedgerState interface; DRep:
       `ls.DRepRegistration(cred).Deposit`) -/
